@@ -45,22 +45,34 @@ func cells(seed int) []Cell {
 	var out []Cell
 	r := rand.New(rand.NewPCG(uint64(seed), 0xc16))
 	for _, mode := range []string{"", "verify", "verify_log", "none"} {
-		for _, signer := range []string{"good", "unknown-signer", "badsig"} {
+		for _, signer := range []string{"good", "unknown-signer", "badsig", "rekeyed-trusted"} {
 			for _, intake := range []string{"conf-file", "conf-url", "cdp-first", "refresh", "refresh-after-restart"} {
 				for _, disk := range []bool{false, true} {
 					for _, bg := range []bool{false, true} {
 						if intake == "refresh-after-restart" && !disk {
 							continue
 						}
+						if signer == "rekeyed-trusted" && (intake == "refresh" || intake == "refresh-after-restart") {
+							// a refresh is verified against the signer stored with the list in force; whether a list signed by
+							// ANOTHER entitled signer is adopted on refresh is the conservative side the property leaves open
+							continue
+						}
 						c := Cell{Mode: mode, Signer: signer, Intake: intake, Disk: disk, Bg: bg}
 						h := sim.Spec{Issuers: 1 + r.IntN(2), Config: sim.Config{Disk: disk, Background: bg, Sig: mode, Strict: true, TrustSigners: true}}
+						kind := signer
+						if signer == "rekeyed-trusted" {
+							// the CA was re-keyed: a certificate with the same name and the new key is a configured trusted
+							// signer, the list is signed with the new key, the clients still chain to the old certificate
+							kind = "badsig"
+							h.Config.TrustSiblings = true
+						}
 						h.CDPs = []sim.CDPSpec{{Issuer: 0, Kind: "http", Twin: -1, NoAKI: r.IntN(2) == 0, PEM: r.IntN(3) == 0}}
 						s1 := subset(r, r.IntN(3))
 						s2 := subset(r, 3+r.IntN(4))
-						k := sim.Content{Kind: signer, Set: s2}
+						k := sim.Content{Kind: kind, Set: s2}
 						switch intake {
 						case "conf-file", "conf-url":
-							h.Initial = []sim.Content{{Kind: signer, Set: s1}}
+							h.Initial = []sim.Content{{Kind: kind, Set: s1}}
 							if intake == "conf-file" {
 								h.Config.ConfFiles = []int{0}
 							} else {
@@ -70,7 +82,7 @@ func cells(seed int) []Cell {
 							h.Events = append(h.Events, sim.Event{Kind: "origin", CDP: 0, Content: k}, sim.Event{Kind: "tick"})
 							h.Events = append(h.Events, probes(-1)...)
 						case "cdp-first":
-							h.Initial = []sim.Content{{Kind: signer, Set: s1}}
+							h.Initial = []sim.Content{{Kind: kind, Set: s1}}
 							h.Events = append(h.Events, probes(0)...)
 						case "refresh":
 							h.Initial = []sim.Content{{Kind: "good", Set: s1}}
@@ -131,6 +143,29 @@ func cells(seed int) []Cell {
 			}
 		}
 	}
+	// the trusted signer list is emptied across a restart: a configured list that was accepted (and persisted together with
+	// its signer) while its signer was trusted must not come into force under 'verify' once nobody vouches for the signer
+	for _, mode := range []string{"verify", ""} {
+		for _, intake := range []string{"conf-file", "conf-url"} {
+			for _, bg := range []bool{false, true} {
+				c := Cell{Mode: mode, Signer: "good, then no longer trusted", Intake: intake + "+trust-list-emptied", Disk: true, Bg: bg}
+				h := sim.Spec{Issuers: 1, Config: sim.Config{Disk: true, Background: bg, Sig: mode, Strict: true, TrustSigners: true}}
+				h.CDPs = []sim.CDPSpec{{Issuer: 0, Kind: "http", Twin: -1}}
+				h.Initial = []sim.Content{{Kind: "good", Set: subset(r, r.IntN(3))}}
+				if intake == "conf-file" {
+					h.Config.ConfFiles = []int{0}
+				} else {
+					h.Config.ConfURLs = []int{0}
+				}
+				h.Events = append(h.Events, probes(-1)...)
+				h.Events = append(h.Events, sim.Event{Kind: "origin", CDP: 0, Content: sim.Content{Kind: "good", Set: subset(r, 3+r.IntN(4))}})
+				h.Events = append(h.Events, sim.Event{Kind: "restart", SetTrust: true, Trust: false})
+				h.Events = append(h.Events, probes(-1)...)
+				c.History = h
+				out = append(out, c)
+			}
+		}
+	}
 	// the same for a distribution-point list: taken in under verify_log / none (no verified signer is persisted with
 	// it), then the policy is tightened and the process restarted. Whatever the new process does with the stored
 	// list (it is EMPTY here, and the cell is lenient, so keeping and dropping it give the same verdicts - the
@@ -181,7 +216,7 @@ func runCell(c Cell, x *ev.Ctx) error {
 var spec = ev.Spec[Cell]{
 	ID:          "C16",
 	Run:         runCell,
-	Rule:        "exhaustive matrix: signature mode {unset, verify, verify_log, none} x signer {resolvable, unknown signer, wrong signature by a same-name sibling} x intake path {provision-time crl_file, provision-time crl_url, first CDP fetch, refresh to a newer list, refresh after a restart (disk)} x storage x fetch mode, plus 48 cells in which a configured list accepted under verify_log / none is met again after a restart under verify / unset, plus 48 cells in which an (empty) distribution-point list taken in under verify_log / none is refreshed with a list that fails verification after a restart under verify / unset (lenient, so that the verdicts do not depend on whether the stored unverified list is kept); each cell is expanded into a history (probe handshakes before/after the intake, then origin broken, restart, probe handshakes again) executed on a real checker and compared with the reference model: under verify/unset a list is in force iff signer resolvable and signature right, on every path and after restart; under verify_log/none every parseable list is in force, provisioning succeeds and a refresh brings the NEW content into force. List contents, AKI presence and encoding are drawn from VERIF_SEED. Every cell is non-trivial.",
+	Rule:        "exhaustive matrix: signature mode {unset, verify, verify_log, none} x signer {resolvable, unknown signer, wrong signature by a same-name sibling, re-keyed CA: the same-name sibling is a configured trusted signer} x intake path {provision-time crl_file, provision-time crl_url, first CDP fetch, refresh to a newer list, refresh after a restart (disk)} x storage x fetch mode, plus 48 cells in which a configured list accepted under verify_log / none is met again after a restart under verify / unset, plus 8 cells in which the trusted signer list is emptied across a restart while the configured location serves a newer list of the (formerly trusted) signer, plus 48 cells in which an (empty) distribution-point list taken in under verify_log / none is refreshed with a list that fails verification after a restart under verify / unset (lenient, so that the verdicts do not depend on whether the stored unverified list is kept); each cell is expanded into a history (probe handshakes before/after the intake, then origin broken, restart, probe handshakes again) executed on a real checker and compared with the reference model: under verify/unset a list is in force iff signer resolvable and signature right, on every path and after restart; under verify_log/none every parseable list is in force, provisioning succeeds and a refresh brings the NEW content into force. List contents, AKI presence and encoding are drawn from VERIF_SEED. Every cell is non-trivial.",
 	Assumptions: []string{"configured CRLs in mode verify need a configured trusted signer (no handshake chain exists at provisioning); the cells configure one"},
 }
 
